@@ -34,7 +34,7 @@ class FixMathIsCloseTransformer(
                             return updated_node
 
             new_args = self.replace_args(
-                original_node,
+                updated_node,
                 [NewArg(name="abs_tol", value="1e-09", add_if_missing=True)],
             )
 
